@@ -606,6 +606,88 @@ fn random_scenario(rng: &mut impl Rng, i: usize, cheavy: bool) -> Value {
            "target": if i % 4 == 0 { 250 } else { 1 << 20 }, "maxsel": rng.gen_range(2..=5)})
 }
 
+/// The second write buffer of the repository (write_buffer.rs: WriteBuffer::push / flush, used by the
+/// delta-sink persistence worker): pushes and flushes with a failing segment upload now and then.
+/// C12's last sentence applies to it as it does to StreamingPersistence: a failed flush must keep
+/// what it took.  ops: "p" push the next delta (key wk<n>), "f" flush; faults: [op index, kind].
+async fn run_wbuf_async(scn: Value, store: ScriptedObjectStore) {
+    use redis_sim::streaming::WriteBuffer;
+    let ops: Vec<String> = scn["ops"].as_array().unwrap().iter().map(|o| o.as_str().unwrap().to_string()).collect();
+    {
+        let mut g = store.inner.lock().unwrap();
+        for f in scn["faults"].as_array().cloned().unwrap_or_default() {
+            g.faults.push((f[0].as_u64().unwrap() as usize, "put_seg".into(), f[1].as_str().unwrap().to_string()));
+        }
+    }
+    let mut cfg = wb_config();
+    if let Some(bp) = scn["backpressure"].as_u64() {
+        cfg.backpressure_threshold_bytes = bp as usize;
+    }
+    let wb = WriteBuffer::new(Arc::new(store.clone()), "wb".to_string(), cfg);
+    let mut n = 0u64;
+    for (i, op) in ops.iter().enumerate() {
+        store.inner.lock().unwrap().cur_op.insert("F".into(), i + 1);
+        match op.as_str() {
+            "p" => {
+                n += 1;
+                let d = mk_delta(&json!({"k": format!("wk{n}"), "t": "set", "v": format!("v{n}"), "ts": n, "r": 1}));
+                let r = wb.push(d);
+                store.log(json!({"a": "wpush", "id": n, "ok": r.is_ok(), "pending": wb.pending_count()}));
+            }
+            _ => {
+                let r = wb.flush().await;
+                let mut ev = json!({"a": "wflush", "ok": r.is_ok(), "pending": wb.pending_count(), "key": Value::Null, "seg": []});
+                if let Ok(Some(key)) = &r {
+                    ev["key"] = json!(key);
+                    let data = store.inner.lock().unwrap().objs.get(key).cloned();
+                    match data.map(|d| SegmentReader::open(&d).and_then(|r| r.read_all())) {
+                        Some(Ok(ds)) => ev["seg"] = json!(ds.iter().filter_map(|d| d.key.strip_prefix("wk").and_then(|x| x.parse::<u64>().ok())).collect::<Vec<_>>()),
+                        _ => ev["unreadable"] = json!(true),
+                    }
+                }
+                store.log(ev);
+            }
+        }
+    }
+}
+
+pub fn run_wbuf(run: usize, scn: &Value, out: &mut Out) {
+    let store = ScriptedObjectStore::new(false);
+    out.emit(&json!({"a": "reset", "run": run, "scn": scn}));
+    let rt = tokio::runtime::Builder::new_current_thread().enable_all().start_paused(true).build().unwrap();
+    let st2 = store.clone();
+    let scn2 = scn.clone();
+    let res = catch(move || rt.block_on(run_wbuf_async(scn2, st2)));
+    let mut g = store.inner.lock().unwrap_or_else(|p| p.into_inner());
+    for mut ev in std::mem::take(&mut g.log) {
+        if ev["a"] == "call" {
+            continue;
+        }
+        ev["run"] = json!(run);
+        out.emit(&ev);
+    }
+    if let Err(p) = res {
+        out.emit(&json!({"a": "panic", "run": run, "msg": p}));
+    }
+}
+
+fn random_wbuf(rng: &mut impl Rng) -> Value {
+    let n = rng.gen_range(2..=12usize);
+    let ops: Vec<&str> = (0..n).map(|_| ["p", "p", "p", "f"][rng.gen_range(0..4)]).collect();
+    let mut faults = Vec::new();
+    for (i, o) in ops.iter().enumerate() {
+        if *o == "f" && rng.gen_range(0..3) == 0 {
+            let kind = ["fail", "partial"][rng.gen_range(0..2)];
+            faults.push(json!([i + 1, kind]));
+        }
+    }
+    let mut scn = json!({"ops": ops, "faults": faults});
+    if rng.gen_range(0..5) == 0 {
+        scn["backpressure"] = json!(rng.gen_range(100..400));
+    }
+    scn
+}
+
 pub fn main(args: &[String]) -> i32 {
     let a = Args::parse(args);
     quiet_panics();
@@ -623,8 +705,24 @@ pub fn main(args: &[String]) -> i32 {
                 run_scenario(i + 1, &s, &mut out);
             }
         }
+        Some("wbuf") => {
+            // vh stream wbuf [scenarios.ndjson] --seed S --n N : the WriteBuffer of write_buffer.rs
+            let mut run = 0;
+            if a.pos.len() > 1 {
+                for s in read_ndjson(&a.pos[1]).iter() {
+                    run += 1;
+                    run_wbuf(run, s, &mut out);
+                }
+            }
+            let mut rng = rng(a.u64("seed", 1));
+            for _ in 0..a.usize("n", 0) {
+                run += 1;
+                let s = random_wbuf(&mut rng);
+                run_wbuf(run, &s, &mut out);
+            }
+        }
         _ => {
-            eprintln!("usage: vh stream replay|record");
+            eprintln!("usage: vh stream replay|record|wbuf");
             return 2;
         }
     }
